@@ -52,6 +52,15 @@ CHECKS["C16"] = dict(
    engine="dsim arena",
 )
 
+CHECKS["C13"] = dict(
+   level="exploration",
+   text="Seeded search over operation histories: a well-formed document is drawn model-first and rendered with recorded value spans; lazy handles are obtained by every public route (get on every carrier, get_unchecked, get_many, iterators, serde borrowed/owned, From<LazyValue>, to_lazyvalue, literals) and a drawn history of reads, child handles, clones, borrowed-to-owned conversions, Value::try_from, take, as_array_mut/as_object_mut + Vec operations, get_mut/pointer_mut + assign/take runs over a pool of handles with the model updated in lock-step. After every step every live handle is re-serialized by a drawn method and compared with its model: raw text verbatim for untouched parts, model equality by reference re-parse; accessors (type, bool, number, string, raw number, children by get/pointer/iteration) are compared with the model of the raw text. The simulated heap checks frees and leaks of the take-out-of-the-box path.",
+   design_ref="DESIGN.md section 3 (C13)",
+   note="Trusted: the reference JSON model and span scanner (self-tested). Single simulated caller (threads are C18's business). No duplicate keys; number literals with unambiguous classification. A clone of a value whose cache may be loaded may serialize in its one-level parsed form.",
+   technique="deterministic simulation: seeded operation histories against a lock-step reference model, simulated heap (ledger/poison/leak check); no scheduler or I/O faults are involved in this property",
+   engine="dsim lazy",
+)
+
 PENDING = {
  "C13": "check under construction in this session (planned: claimed, exploration over operation histories)",
  "C15": "check under construction in this session (planned: claimed, exploration over operation histories)",
